@@ -19,3 +19,11 @@ package keeper
 //@   ensures[C19.rg.atomic] err != nil ==> state(ctx) == old(state(ctx))
 //@   before[C19.rg.payer]   SendCoinsFromModuleToAccount requires arg_senderModule == "fee_collector" && arg_recipientAddr == addrbytes(msg_from(msg)) &&
 //@        leftoverGas * val(msg_gasprice(msg)) > 0
+
+// C19: the message is executed on a cache context whenever post-processing hooks are registered, so that a failed
+// execution or hook discards every write made through the context (precompile state included)
+//@ func (*Keeper).ApplyTransaction
+//@   flag pure=EVMConfig,NewTxConfig,GetTxIndexTransient,GetLogSizeTransient,GetBaseFee,MakeSigner,AsMessage,Hash,HeaderHash,GetTxIndexTransient
+//@   flag havoc=ApplyMessageWithConfig,PostTxProcessing,RefundGas,ResetGasMeterAndConsumeGas,SetBlockBloomTransient,SetTxIndexTransient,SetLogSizeTransient,BloomValue
+//@   modifies state(ctx)
+//@   before[C19.at.cached] ApplyMessageWithConfig requires k.hooks == nil || arg_ctx.cell != ctx.cell
